@@ -308,3 +308,12 @@ func BytesSparse(n, k int) []byte {
 	copy(out[n-k:], b[k:])
 	return out
 }
+
+// Virtual returns a slice of length n whose contents are never inspected (the engine gives it a
+// symbolic length and no backing store).
+func Virtual(n int) []byte {
+	if n < 0 {
+		panic(assumeFail{})
+	}
+	return make([]byte, n)
+}
